@@ -182,6 +182,9 @@ func (r *Recorder) Block(c *Chain, kind string, res *abci.ResponseEndBlock, pi *
 	if appHash != nil {
 		m["apphash"] = Hex(appHash)
 	}
+	if kind == "begin" && len(c.Blocks) > 0 && len(c.Blocks[len(c.Blocks)-1].Evidence) > 0 {
+		m["evidence"] = len(c.Blocks[len(c.Blocks)-1].Evidence) // double-sign evidence was handled by this BeginBlock
+	}
 	r.emit(m)
 }
 
